@@ -1390,7 +1390,9 @@ def st_spis(tier):
             n = draw(st.one_of(st.integers(1, dw), st.sampled_from([1, dw, min(dw, 8)])))
             xfers.append({"n": n, "tx": draw(st.integers(0, (1 << n) - 1)), "resp": draw(st.integers(0, (1 << dw) - 1)),
                           "half": half, "lead": draw(st.integers(max(half, 6), 2 * half + 4)),
-                          "trail": draw(st.integers(half, 2 * half + 2)), "idle": draw(st.integers(8, 20))})
+                          "trail": draw(st.integers(half, 2 * half + 2)), "idle": draw(st.integers(8, 20)),
+                          # clock pulses of somebody else's transfer on the shared bus while this slave is deselected
+                          "foreign": draw(st.sampled_from([0, 0, 1, 3, 5]))})
         return {"dw": dw, "xfers": xfers, "loopback": draw(st.integers(0, 4)) == 0}
     return case()
 
@@ -1426,7 +1428,10 @@ def run_spis(case):
             wave += [(0, 0, nxt, x["resp"])] * (half if i + 1 < n else x["trail"])
         rise_cs = len(wave)
         wave += [(0, 1, 0, x["resp"])] * x["idle"]
-        marks.append((fall, rises, rise_cs))
+        for k_ in range(x.get("foreign", 0)):
+            wave += [(1, 1, (k_ + 1) & 1, x["resp"])] * half + [(0, 1, k_ & 1, x["resp"])] * half
+        wave += [(0, 1, 0, x["resp"])] * (4 if x.get("foreign") else 0)
+        marks.append((fall, rises, rise_cs, len(wave) - 1))
     wave += [(0, 1, 0, 0)] * 8
     n_cyc = len(wave)
 
@@ -1444,7 +1449,7 @@ def run_spis(case):
     if len(starts) != len(marks) or len(irqs) != len(marks):
         return bad("spis-events", "%s: %d transfers, start pulses at %r, irq pulses at %r" % (what, len(marks), starts, irqs),
                    key="c19:spis:events", cls=cls, cycles=cyc)
-    for i, ((fall, rises, rise_cs), x) in enumerate(zip(marks, case["xfers"])):
+    for i, ((fall, rises, rise_cs, quiet_end), x) in enumerate(zip(marks, case["xfers"])):
         n = x["n"]
         tag = "%s: transfer %d (%d bits %#x, SPI clock = %d system cycles, cs low at %d)" % (what, i, n, x["tx"], 2 * x["half"], fall)
         if not (fall < starts[i] <= fall + 4) or not (rise_cs < irqs[i] <= rise_cs + 4):
@@ -1460,6 +1465,12 @@ def run_spis(case):
             return bad("spis-length", tag + ": length reads %d" % length, key="c19:spis:length", cls=cls, cycles=cyc)
         if got & ((1 << n) - 1) != x["tx"]:
             return bad("spis-mosi", tag + ": received word %#x, low %d bits should be %#x" % (got, n, x["tx"]), key="c19:spis:mosi", cls=cls, cycles=cyc)
+        if x.get("foreign"):
+            cls.append("spis:foreign-clock-while-deselected")
+            if (tr[quiet_end][4], tr[quiet_end][5], tr[quiet_end][2]) != (got, length, 1):
+                return bad("spis-deselected", tag + ": %d clock pulses while chip-select is high changed the received word / length / done from "
+                           "%#x / %d / 1 to %#x / %d / %d" % (x["foreign"], got, length, tr[quiet_end][4], tr[quiet_end][5], tr[quiet_end][2]),
+                           key="c19:spis:deselected", cls=cls, cycles=cyc)
         for r in rises:
             high = {tr[c][0] for c in range(r - 1, r + x["half"])}
             if len(high) != 1:
